@@ -267,8 +267,7 @@ func TestC06(t *testing.T) {
 	var rc dupCase
 	if loadReplay(t, &rc) {
 		if msg, _ := checkDup(&rc); msg != "" {
-			st.Violate(msg, &rc)
-			t.Fatal(msg)
+			fail(st, t, msg, &rc)
 		}
 		return
 	}
@@ -293,8 +292,7 @@ func TestC06(t *testing.T) {
 			st.Sample(map[string]interface{}{"kind": kind, "places": c.Places, "entry": string(c.Entry.Content), "verdict": verdict, "chain": c.Base.Summary()})
 		}
 		if msg != "" {
-			st.Violate(msg, c)
-			rt.Fatalf("%s", msg)
+			fail(st, rt, msg, c)
 		}
 	})
 }
